@@ -27,7 +27,7 @@ func init() {
 			{Name: "matrix", N: core.TierN(600, 24000), Batch: 30, Run: c20Matrix},
 			{Name: "directed-tick-race", N: core.TierN(120, 4800), Batch: 20, Run: c20Directed},
 			{Name: "directed-full-buffer", N: core.TierN(60, 2400), Batch: 20, Run: c20FullBuffer},
-			{Name: "fast-ticks-under-load", N: core.TierN(16, 480), Batch: 2, Run: c20FastTicks},
+			{Name: "fast-ticks-under-load", N: core.TierN(8, 480), Batch: 2, Run: c20FastTicks},
 			{Name: "err-only-context", N: core.TierN(90, 3600), Batch: 30, Run: c20ErrOnly},
 		},
 	})
